@@ -25,5 +25,8 @@ pub mod tls;
 mod tx_index;
 pub mod watcher;
 
+#[cfg(feature = "verif")]
+pub mod verif;
+
 #[cfg(test)]
 mod test_utils;
